@@ -295,7 +295,7 @@ def run(ctx):
     rng = ctx.rng
     fb = fix_bounds()
     heads, comp, second = pools(fb)
-    npred = ctx.scale(220, 4000)
+    npred = ctx.scale(160, 4000)
     uid = "s%dx%d" % (ctx.seed, 1 if ctx.thorough else 0)
     preds, jobs = [], []
     sent = sentinels()
